@@ -58,7 +58,26 @@ inline rc::Gen<Seg> segGen(uint32_t big) {
                         [kind](const std::tuple<uint32_t, uint32_t, uint32_t> &t) { Seg s; s.kind = kind; s.len = std::get<0>(t); s.a = std::get<1>(t); s.seed = std::get<2>(t); return s; });
   });
 }
-inline rc::Gen<std::vector<Seg>> segsGen(uint32_t big) { return rc::gen::container<std::vector<Seg>>(segGen(big)); }
+// window construct: a stretch of fresh bytes about as long as a codec window (2^15, 2^16, 2^17), then a copy from exactly that
+// distance or one byte to either side - short (one match) or long (the input becomes periodic at the window size), then a tail
+inline rc::Gen<std::vector<Seg>> windowSegs() {
+  return rc::gen::map(rc::gen::tuple(rc::gen::element<uint32_t>(1u << 15, 1u << 16, 1u << 16, 1u << 16, 1u << 17), pbt::irange(0, 6), pbt::irange(-1, 1),
+                                     rc::gen::weightedOneOf<int>({{2, pbt::irange(4, 300)}, {1, pbt::irange(301, 200000)}}), pbt::irange(0, 1 << 30), pbt::irange(0, 3), pbt::irange(0, 40)),
+                      [](const std::tuple<uint32_t, int, int, int, int, int, int> &t) {
+                        uint32_t w = std::get<0>(t);
+                        int j = std::get<1>(t) - 2;   // the fresh stretch ends 2 bytes before .. 4 bytes after the window size
+                        Seg a; a.kind = std::get<5>(t) == 0 ? 4 : 0; a.len = (uint32_t)((int)w + j); a.seed = (uint32_t)std::get<4>(t);
+                        Seg b; b.kind = 3; b.a = (uint32_t)((int)w + std::get<2>(t)); if (b.a > a.len) b.a = a.len; b.len = (uint32_t)std::get<3>(t);
+                        std::vector<Seg> v{a, b};
+                        if (std::get<6>(t)) { Seg c; c.kind = 0; c.len = (uint32_t)std::get<6>(t); c.seed = a.seed ^ 0x5555; v.push_back(c); Seg d = b; d.len = 40; v.push_back(d); }
+                        return v;
+                      });
+}
+inline rc::Gen<std::vector<Seg>> segsGen(uint32_t big) {
+  auto any = rc::gen::container<std::vector<Seg>>(segGen(big));
+  if (big < 140000) return any;
+  return rc::gen::weightedOneOf<std::vector<Seg>>({{14, any}, {1, windowSegs()}});
+}
 
 inline void putSegs(pbt::CaseText &t, const std::vector<Seg> &s) {
   std::vector<uint32_t> f;
